@@ -39,6 +39,11 @@ def submissions (st : St) (p : Nat) : Nat := (keys st.nextId (fun f => st.tasks 
 
 theorem generated_is_fixed : Variant.generated = Variant.fixed := by decide
 
+/-- The model removes a pair from `backups` only in `succeed`; the source does the same: every removal of a `backups`
+entry sits in the clean-up after the yield of a successful task.  (A pair that is unlinked when a task merely *fails* would
+let the surviving twin pass the `task not in backups` guard and get another backup — `C08_at_most_two_submissions`.) -/
+theorem generated_backups_unlinked_only_on_success : GeneratedC08.backupsUnlinkedOnlyOnSuccess = true := by decide
+
 theorem generated_thr_ok : ThrOK Thresholds.generated := by unfold ThrOK; decide
 
 theorem asIs_isFixed (cfg : Cfg) (h : AsIs cfg) : IsFixed cfg :=
